@@ -176,7 +176,7 @@ def classify(argv, stdin=None):
             opts, pos = _split_opts(rest, {"--message", "-m", "--merged", "--contains", "--points-at", "--sort"})
             if "--list" in opts or "-l" in opts or (not pos and "--message" not in opts and "-m" not in opts):
                 merged = "--merged" in opts
-                return (tool, "ls_tags_branch" if merged else "ls_tags", {})
+                return (tool, "ls_tags_branch" if merged else "ls_tags", {"format": opts.get("--format")})
             msg = opts.get("--message", opts.get("-m"))
             return (tool, "tag", {"name": pos[0] if pos else None, "message": msg, "extra_pos": pos[1:]})
         if sub == "status":
@@ -283,6 +283,7 @@ class FakeRepo:
         self.push_log = []      # [argv tail]
         self.fetch_count = 0
         self.pending_remote_tags = []   # tags a colleague pushed: they arrive with the next successful fetch / pull
+        self.moved_remote_tags = []     # tags that exist here and point somewhere else on the remote (a moved `latest`)
         self.ncommits = 0
         self.new_commit(None)
 
@@ -354,7 +355,7 @@ class FakeRepo:
         h.update(repr((self.personality, self.remote, self.tracking, sorted(self.parents.items()),
                        sorted(self.branches.items()), self.head, sorted(self.tags.items()),
                        self.status, sorted(self.staged), self.commit_log, self.tag_log, self.push_log,
-                       self.fetch_count, self.pending_remote_tags)).encode("utf-8", "surrogateescape"))
+                       self.fetch_count, self.pending_remote_tags, self.moved_remote_tags)).encode("utf-8", "surrogateescape"))
         return h.hexdigest()[:16]
 
     # ---- command execution -------------------------------------------------------------------
@@ -439,13 +440,27 @@ class FakeRepo:
                 return (128, b"", b"fatal: no remote\n")
             self.fetch_count += 1
             self._receive_remote_tags()
+            if self.moved_remote_tags and ("--tags" in argv or "-t" in argv) and "--force" not in argv and "-f" not in argv:
+                # since git 2.20 a fetch that asks for all tags refuses to move a tag that exists locally
+                t = self.moved_remote_tags[0]
+                return (1, b"", (" ! [rejected]        %s -> %s  (would clobber existing tag)\n" % (t, t)).encode("utf-8"))
             return (0, b"", b"")
-        if role == "ls_tags":
-            out = "".join(t + "\n" for t in sorted(self.tags))
-            return (0, out.encode("utf-8"), b"")
-        if role == "ls_tags_branch":
-            anc = self.ancestors(self.head_commit())
-            out = "".join(t + "\n" for t in sorted(self.tags) if self.tags[t] in anc)
+        if role in ("ls_tags", "ls_tags_branch"):
+            names = sorted(self.tags)
+            if role == "ls_tags_branch":
+                anc = self.ancestors(self.head_commit())
+                names = [t for t in names if self.tags[t] in anc]
+            fmt = info.get("format")
+            if fmt in (None, True, "%(refname:strip=2)", "%(refname:lstrip=2)"):
+                shown = names
+            elif fmt == "%(refname:short)":
+                # the shortest *unambiguous* name: a branch of the same name makes git print "tags/<name>"
+                shown = [("tags/" + t) if t in self.branches else t for t in names]
+            elif fmt == "%(refname)":
+                shown = ["refs/tags/" + t for t in names]
+            else:
+                raise ValueError("FakeRepo does not model `git tag --format=%s`" % fmt)
+            out = "".join(t + "\n" for t in shown)
             return (0, out.encode("utf-8"), b"")
         if role == "status":
             listed = set(p for _xy, p in self.status)
